@@ -238,7 +238,7 @@ fn main() {
     {
         let lens = tu_verif::enumerate::threshold_lengths(run.pick(8, 10));
         let patterns: [&[&str]; 3] = [&["a", "b"], &["a", " ", "ä"], &["e\u{301}", "a"]];
-        run.bounds.insert("long_phase".into(), json!(format!("lengths {lens:?} x 3 repeated patterns x (equal, one symbol replaced / deleted / inserted at start, middle, end, the pattern shifted by one) x all flags")));
+        run.bounds.insert("long_phase".into(), json!(format!("lengths {lens:?} x 3 repeated patterns x (equal, one symbol replaced / deleted / inserted at start, middle, end, the pattern shifted by one; every ordered pair of 6 short texts around one grapheme cluster of that many code points) x all flags")));
         let mut unit4 = base3 + xy_chars.len() * (xy_chars.len() - 1) * xy_all.len();
         for n in lens {
             for pat in patterns {
@@ -249,6 +249,19 @@ fn main() {
                 let syms: Vec<&str> = (0..n).map(|i| pat[i % pat.len()]).collect();
                 let a: String = syms.concat();
                 let mut bs: Vec<String> = vec![a.clone(), (1..=n).map(|i| pat[i % pat.len()]).collect()];
+                if pat.len() == 2 && pat[0] == "a" {
+                    // (with the first pattern also: one grapheme cluster of n code points inside short texts)
+                    let w = format!("a{}", "\u{301}".repeat(n - 1));
+                    let giants = [format!("x{w}y"), format!("x{w}\u{301}y"), "xy".to_string(), w.clone(), format!("{w}{w}"), format!("x {w}")];
+                    for ga in &giants {
+                        for gb in &giants {
+                            for flags in 0..8u32 {
+                                check(&mut run, ga, gb, flags & 1 != 0, flags & 2 != 0, flags & 4 != 0);
+                            }
+                        }
+                        run.tick();
+                    }
+                }
                 for pos in [0, n / 2, n - 1] {
                     let mut r = syms.clone();
                     r[pos] = "x";
